@@ -303,7 +303,7 @@ func dTotal(g *G) {
 				c := Ctx{P: p, Emin: -100000, Emax: 100000, R: "half_even", T: []int{0, 0x7af}[g.R.Intn(2)]}
 				yj := finDec(false, big.NewInt(5), -1)
 				arg := fmt.Sprintf("%s|%s|%s", ctxStr(c), decStr(xj), decStr(yj))
-				g.emit(guarded(name, arg, true, func() *apd.Decimal { return ent.f(decCtx(c), decDec(xj), decDec(yj), 0) }), "highprec/"+name)
+				g.emit(guarded(name, arg, false, func() *apd.Decimal { return ent.f(decCtx(c), decDec(xj), decDec(yj), 0) }), "highprec/"+name) // measured: at most 21 ms each, so the ordinary watchdog applies
 			}
 		}
 	}
